@@ -23,7 +23,8 @@ type c02Case struct {
 	B c02Tuple `json:"b"`
 	// InclPubKey embeds the signer's public key in the signature.
 	InclPubKey bool `json:"incl_pub_key"`
-	// Malform: "", "ht", "sig-empty", "sig-mut", "pubkey-garbage", "pubkey-badtype", "pubkey-len31", "pubkey-len33"
+	// Malform: "", "ht", "sig-empty", "sig-mut", "pubkey-garbage", "pubkey-badtype", "pubkey-len31", "pubkey-len33",
+	// "pubkey-len-over", "pubkey-cut", "pubkey-field-overrun" (the genuine key in a message that is not a complete protobuf)
 	Malform string  `json:"malform"`
 	HTVal   int     `json:"ht_val"`
 	Mut     gen.Mut `json:"mut"`
@@ -31,7 +32,7 @@ type c02Case struct {
 	PreVerify bool `json:"pre_verify,omitempty"`
 }
 
-var c02Malforms = []string{"ht", "sig-empty", "sig-mut", "pubkey-garbage", "pubkey-badtype", "pubkey-len31", "pubkey-len33"}
+var c02Malforms = []string{"ht", "sig-empty", "sig-mut", "pubkey-garbage", "pubkey-badtype", "pubkey-len31", "pubkey-len33", "pubkey-len-over", "pubkey-cut", "pubkey-field-overrun"}
 
 func genC02Tuple(t *rapid.T, l string) c02Tuple {
 	return c02Tuple{
@@ -148,6 +149,22 @@ func checkC02(c c02Case) (o vstat.Outcome) {
 		wantValidateErr = true
 	case "pubkey-len33":
 		sig.PubKey = append([]byte{0x08, 0x01, 0x12, 0x21}, gen.DetBytes("pk", 33)...)
+		wantValidateErr = true
+	case "pubkey-len-over":
+		// the signer's genuine key message with a data length that announces 1..95 bytes more than the message holds
+		raw, _ := gen.Key(c.A.Key).GetPublic().Raw()
+		sig.PubKey = append([]byte{0x08, 0x01, 0x12, byte(33 + c.Mut.Val%95)}, raw...)
+		wantValidateErr = true
+	case "pubkey-cut":
+		// the genuine key message cut short by 1..33 bytes
+		raw, _ := gen.Key(c.A.Key).GetPublic().Raw()
+		full := append([]byte{0x08, 0x01, 0x12, 0x20}, raw...)
+		sig.PubKey = full[:len(full)-1-c.Mut.Val%33]
+		wantValidateErr = true
+	case "pubkey-field-overrun":
+		// the genuine key message followed by a field whose announced length runs past the end
+		raw, _ := gen.Key(c.A.Key).GetPublic().Raw()
+		sig.PubKey = append(append([]byte{0x08, 0x01, 0x12, 0x20}, raw...), 0x1a, byte(2+c.Mut.Val%100), 0x01)
 		wantValidateErr = true
 	}
 	effHT := int(sig.HashType)
